@@ -907,6 +907,8 @@ var c15 = Register(&Prop[HostCase]{ID: "C15", Name: "host-conversion", Gen: genH
 
 // ---- fixed error classes that reflection cannot build by generation
 
+type selfPtr *selfPtr
+
 type recNode struct {
 	V    int
 	Next *recNode
@@ -925,24 +927,31 @@ func deepSlice(n int) interface{} {
 }
 
 var fixedHost = map[string]func() (v interface{}, wantErr bool){
-	"nil":                  func() (interface{}, bool) { return nil, true },
-	"typed-nil-pointer":    func() (interface{}, bool) { return (*int)(nil), true },
-	"typed-nil-struct-ptr": func() (interface{}, bool) { return (*recNode)(nil), true },
-	"nil-slice":            func() (interface{}, bool) { return []int(nil), true },
-	"nil-map":              func() (interface{}, bool) { return map[string]int(nil), true },
-	"mixed-iface-slice":    func() (interface{}, bool) { return []interface{}{1, "a"}, true },
-	"mixed-iface-map":      func() (interface{}, bool) { return map[string]interface{}{"a": 1, "b": "x"}, true },
-	"nil-in-iface-slice":   func() (interface{}, bool) { return []interface{}{1, nil}, true },
-	"chan":                 func() (interface{}, bool) { return make(chan int), true },
-	"func":                 func() (interface{}, bool) { return func() {}, true },
-	"complex":              func() (interface{}, bool) { return complex(1, 2), true },
-	"uintptr":              func() (interface{}, bool) { return uintptr(1), true },
-	"struct-with-chan":     func() (interface{}, bool) { return struct{ C chan int }{make(chan int)}, true },
-	"nested-101":           func() (interface{}, bool) { return deepSlice(102), true },
-	"nested-50":            func() (interface{}, bool) { return deepSlice(50), false },
-	"recursive-type":       func() (interface{}, bool) { return recNode{1, &recNode{2, nil}}, true },
-	"pointer-to-pointer":   func() (interface{}, bool) { x := 5; p := &x; return &p, false },
-	"struct-key-map":       func() (interface{}, bool) { return map[struct{ A int }]int{{1}: 1}, true },
+	"nil":                                func() (interface{}, bool) { return nil, true },
+	"typed-nil-pointer":                  func() (interface{}, bool) { return (*int)(nil), true },
+	"typed-nil-struct-ptr":               func() (interface{}, bool) { return (*recNode)(nil), true },
+	"nil-slice":                          func() (interface{}, bool) { return []int(nil), true },
+	"nil-map":                            func() (interface{}, bool) { return map[string]int(nil), true },
+	"mixed-iface-slice":                  func() (interface{}, bool) { return []interface{}{1, "a"}, true },
+	"mixed-iface-map":                    func() (interface{}, bool) { return map[string]interface{}{"a": 1, "b": "x"}, true },
+	"nil-in-iface-slice":                 func() (interface{}, bool) { return []interface{}{1, nil}, true },
+	"chan":                               func() (interface{}, bool) { return make(chan int), true },
+	"func":                               func() (interface{}, bool) { return func() {}, true },
+	"complex":                            func() (interface{}, bool) { return complex(1, 2), true },
+	"uintptr":                            func() (interface{}, bool) { return uintptr(1), true },
+	"struct-with-chan":                   func() (interface{}, bool) { return struct{ C chan int }{make(chan int)}, true },
+	"nested-101":                         func() (interface{}, bool) { return deepSlice(102), true },
+	"nested-50":                          func() (interface{}, bool) { return deepSlice(50), false },
+	"recursive-type":                     func() (interface{}, bool) { return recNode{1, &recNode{2, nil}}, true },
+	"pointer-to-pointer":                 func() (interface{}, bool) { x := 5; p := &x; return &p, false },
+	"struct-key-map":                     func() (interface{}, bool) { return map[struct{ A int }]int{{1}: 1}, true },
+	"self-referential-interface-pointer": func() (interface{}, bool) { var x interface{}; x = &x; return x, true },
+	"self-referential-pointer-type":      func() (interface{}, bool) { var p selfPtr; p = &p; return p, true },
+	"struct-with-self-referential-field": func() (interface{}, bool) {
+		var x interface{}
+		x = &x
+		return struct{ A interface{} }{x}, true
+	},
 	"duplicate-tag-names": func() (interface{}, bool) {
 		return struct {
 			A int `yae:"x"`
@@ -959,7 +968,10 @@ func checkFixedHost(c *FixedHostCase) *Outcome {
 	goV, wantErr := mk()
 	var v *val.Val
 	var verr error
-	p := run.Guard(func() { v, verr = conv.ValOf(goV) })
+	var p *run.Panic
+	if !returnsWithin(10*time.Second, func() { p = run.Guard(func() { v, verr = conv.ValOf(goV) }) }) {
+		return bad("%s: ValOf does not return (still running after 10 s)", c.Name)
+	}
 	if p != nil {
 		return bad("%s: ValOf panicked: %s", c.Name, p.Text)
 	}
@@ -970,7 +982,9 @@ func checkFixedHost(c *FixedHostCase) *Outcome {
 		return bad("%s: supported data rejected: %v", c.Name, verr)
 	}
 	var ee error
-	p = run.Guard(func() { _, ee = conv.TypeOf(goV) })
+	if !returnsWithin(10*time.Second, func() { p = run.Guard(func() { _, ee = conv.TypeOf(goV) }) }) {
+		return bad("%s: TypeOf does not return (still running after 10 s)", c.Name)
+	}
 	if p != nil {
 		return bad("%s: TypeOf panicked: %s", c.Name, p.Text)
 	}
@@ -981,10 +995,21 @@ func checkFixedHost(c *FixedHostCase) *Outcome {
 		func() error { _, e := conv.TypeEnvOf(goV); return e },
 		func() error { _, e := conv.ValEnvOf(goV); return e },
 	} {
-		if p := run.Guard(func() { _ = f() }); p != nil {
-			return bad("%s: environment conversion panicked: %s", c.Name, p.Text)
+		f := f
+		var pp *run.Panic
+		if !returnsWithin(10*time.Second, func() { pp = run.Guard(func() { _ = f() }) }) {
+			return bad("%s: environment conversion does not return (still running after 10 s)", c.Name)
+		}
+		if pp != nil {
+			return bad("%s: environment conversion panicked: %s", c.Name, pp.Text)
 		}
 	}
+	// the public entry points with this value as environment
+	var eerr error
+	if !returnsWithin(10*time.Second, func() { pp := run.Guard(func() { _, eerr = yae.Eval("1", goV) }); _ = pp }) {
+		return bad("%s: Eval with this environment does not return (still running after 10 s)", c.Name)
+	}
+	_ = eerr
 	return ok(true, "fixed:"+c.Name)
 }
 
@@ -1008,4 +1033,20 @@ func TestC15(t *testing.T) {
 		}
 	})
 	c15.Run(t, budget(8000, 480000))
+}
+
+// returnsWithin runs f in a goroutine and reports whether it returned in time
+// (a call that never returns keeps its goroutine; the check stops at the first failure).
+func returnsWithin(d time.Duration, f func()) bool {
+	done := make(chan struct{})
+	go func() {
+		defer close(done)
+		f()
+	}()
+	select {
+	case <-done:
+		return true
+	case <-time.After(d):
+		return false
+	}
 }
